@@ -7,13 +7,13 @@ ROOT = os.path.dirname(os.path.dirname(os.path.abspath(__file__)))
 
 # pid -> (technique, level text, level_note)
 CHECKS = {
-    "C20": ("reference-model monitor: real dataflow.build_def_use on random graphs of define/use statements (real Graph/StatementBlock, catch edges) and, as a passive wrapper, inside the decompilation of every shipped method; oracle = explicit path search over the instruction-level CFG; the chains of the same graph built a second time",
+    "C20": ("reference-model monitor: real dataflow.build_def_use on random graphs of define/use statements (real Graph/StatementBlock, catch edges) and, as a passive wrapper, inside the decompilation of every shipped method; oracle = explicit path search over the instruction-level CFG; the chains of the same graph built a second time; chains rebuilt and compared again after Graph.remove_ins / dead_code_elimination left holes in the numbering of blocks",
             "UD compared as sets per (variable, use) key incl. parameter definitions at -1,-2,..; DU must be the exact inverse.",
             "edges leave from the end of a node (the decompiler's own graph definition); duplicate list entries are not judged"),
     "C21": ("translation check by execution: generated int/long methods -> DEX -> DAD source -> javac -> JVM, every call compared with an independent Dalvik interpreter (cross-checked against the JVM on the generator's own Java rendering); single-subject pools attribute failures, explain-away re-runs attribute random methods; parameter reassignment, exit-goto loop latches, accumulator operand shapes, loop-first and three-level nesting patterns",
             "1075 single-subject methods (every operator x form x operand shape, comparison, two-level nesting, switch shape, declaration pattern) + random pools on boundary and random argument tuples.",
             "11 structural decompiler defects are known findings keyed by mechanism (switch and do-while structuring, division side effects, declarations); residual failures of random methods containing a switch or do-while are one composite known mechanism; argument tuples are sampled, not exhaustive"),
-    "C22": ("determinism monitor: every method decompiled in several fresh processes under different PYTHONHASHSEED, junk allocations, gc settings, shuffled order and a hash-perturbation monitor (per-object random __hash__ for decompiler nodes); SHA-256 of the source must agree; site counters show sets with >= 2 elements were iterated; a child that runs process() twice on every DvMethod/DvClass object; Annotation_classes.dex (10k methods) in the corpus; crafted DEX with every pair/triple of access flags; a child that requests ASTs of other methods in between",
+    "C22": ("determinism monitor: every method decompiled in several fresh processes under different PYTHONHASHSEED, junk allocations, gc settings, shuffled order and a hash-perturbation monitor (per-object random __hash__ for decompiler nodes); SHA-256 of the source must agree; site counters show sets with >= 2 elements were iterated; a child that runs process() twice on every DvMethod/DvClass object; Annotation_classes.dex (10k methods) in the corpus; crafted DEX with every pair/triple of access flags; a child that requests ASTs of other methods in between; ONE DecompilerDAD serving several DEX files of one Analysis, asked file by file, in reverse and interleaved",
             "All methods of classes.dex and the small shipped DEX files plus generated methods, 6 (quick) / 12 (thorough) children; an isolation child attributes a difference to the set-iteration site.",
             "hash perturbation over-approximates layouts for hash-ordered containers only; allocator behaviours cannot be enumerated"),
     "C25": ("exhaustive translation check by execution: all 576 two-node and (thorough) all 28 800 three-node condition-chain graphs x every truth assignment, decompiled, compiled by javac, run in a JVM and compared with the interpreter; Condition.__init__ merge counter must be > 0; the same enumeration again over exits that re-join in one return (negated printing)",
@@ -25,16 +25,16 @@ CHECKS = {
     "C37": ("sys.addaudithook file-creation monitor (realpath at event time) + before/after snapshot of a canary parent around the real export_apps_to_format run in a sandbox on generated DEX files with hostile class and method names; NUL / inner ';' / look-alike dots in names; an earlier export to another directory in the same process",
             "Class names with '..', '.', empty and absolute-looking segments, long segments, backslashes; method names with '/' and '..'; benign controls must create files inside the output directory.",
             "only effective creations count (a failed attempt outside is not a violation); exceptions are acceptable outcomes"),
-    "C26": ("reference-model monitor: random XML trees serialised by an independent AXML writer (vf/model/axmlw.py) -> AXMLPrinter.get_xml_obj()/get_xml() compared on tags, namespaces, attributes, typed values, text",
+    "C26": ("reference-model monitor: random XML trees serialised by an independent AXML writer (vf/model/axmlw.py) -> AXMLPrinter.get_xml_obj()/get_xml() compared on tags, namespaces, attributes, typed values, text; pairs of documents converted in one process whose pools hold the same raw bytes in the other encoding",
             "Feature-partitioned pools (UTF-8/UTF-16 pools incl. 2-unit lengths, namespaces incl. re-declarations, every Res_value type, text/mixed content, resource-id maps incl. stripped names, comments); a clean base pool is required.",
             "writer self-checked by an own reader that also parses all shipped AXML files; names are ASCII XML names, values legal XML chars"),
-    "C28": ("reference-model monitor: random resource-table models serialised by an independent resources.arsc writer (vf/model/arscw.py) -> every ARSCParser listing and every resource id compared with the model",
+    "C28": ("reference-model monitor: random resource-table models serialised by an independent resources.arsc writer (vf/model/arscw.py) -> every ARSCParser listing and every resource id compared with the model; one caller-built configuration object re-targeted with set_language_and_region between queries",
             "1-2 packages, many types/configs (locales incl. 3-letter/script/variant, density, sdk), plain/complex/compact entries, 32-bit/sparse/16-bit offsets, holes, flags, acyclic references; per-encoding pools.",
             "shapes restricted to what aapt/aapt2 emit; writer read-back parses every shipped resources.arsc"),
-    "C29": ("sys.monitoring step budget + RecursionError monitor around get_resolved_res_configs / get_app_name / get_app_icon on generated tables with reference chains and cycles of length 1..5 (plain and through bag items); compact entries and mixtures; every query repeated on the same parser; @null items, package ids 0x01/0x02/0x7e/0x7f, and no value may be reported that no reachable entry stores",
+    "C29": ("sys.monitoring step budget + RecursionError monitor around get_resolved_res_configs / get_app_name / get_app_icon on generated tables with reference chains and cycles of length 1..5 (plain and through bag items); compact entries and mixtures; every query repeated on the same parser; @null items, package ids 0x01/0x02/0x7e/0x7f, and no value may be reported that no reachable entry stores; tables in which no node has a default-locale variant",
             "Budget calibrated on the acyclic chains of the same run; acyclic chains are also compared exactly; mechanism names carry the cycle length and entry kind.",
             "budget = multiple of the acyclic maximum; any exception other than RecursionError/budget is reported under its own mechanism"),
-    "C31": ("reference-model monitor: random manifest models -> axmlw -> zip -> APK(bytes, raw=True); every manifest query compared with the model (multisets where androguard gives no order); queries asked in random order and a second time on the same object; intent-filter children shuffled",
+    "C31": ("reference-model monitor: random manifest models -> axmlw -> zip -> APK(bytes, raw=True); every manifest query compared with the model (multisets where androguard gives no order); queries asked in random order and a second time on the same object; intent-filter children shuffled; component names of 42..130 non-ASCII letters (UTF-8 pool length prefixes of different widths)",
             "Names with/without dots/leading dot, duplicate permissions, maxSdkVersion, four component kinds + aliases, MAIN/LAUNCHER on 0-3 components, enabled=false, SDK attributes present/absent/codename, features, libraries, attributes with and without namespace.",
             "Android's name completion rule; MAIN and LAUNCHER split over two filters is not generated"),
     "C32": ("postcondition contract on APK.get_certificate_der with an independent PKCS#7 verifier (own DER reader + cryptography) over generated v1-signed APKs and single-byte corruptions of .SF / signature + structured alterations; all shipped v1 blocks; get_certificate_der asked with max_sdk_version on both sides of 24; Ed25519/Ed448 signers (key types outside RSA/EC/DSA: a certificate may only be reported if it verifies)",
@@ -46,19 +46,19 @@ CHECKS = {
     "C34": ("reference-model monitor with python zipfile as second reader: generated archives (stored/deflated, non-ASCII/nested names, 0-5 DEX files and 8 look-alike families) -> get_files/get_file/FileNotPresent/get_dex_names/get_all_dex/is_multidex; every missing-entry request and get_dex() repeated",
             "~40 near-miss absent names per archive; manifests valid/absent/garbage.",
             "zip64, encrypted entries, duplicate names not covered"),
-    "C02": ("online monitor on the real linear sweep (checking wrapper per yielded instruction + sys.monitoring step budget) + reference-model comparison on generated valid code and all shipped methods; every yielded length cross-checked against the independent decoder / payload header; a DCode object asked three times about the same hostile bytes",
+    "C02": ("online monitor on the real linear sweep (checking wrapper per yielded instruction + sys.monitoring step budget) + reference-model comparison on generated valid code and all shipped methods; every yielded length cross-checked against the independent decoder / payload header; a DCode object asked three times about the same hostile bytes; ODEX-format and plain class managers used in turn in one process on every unit aaFF",
             "Valid generated code items (all opcodes incl. 0xFE/0xFF with any register byte, payloads, padding) must be recovered exactly (offsets, lengths, raw bytes, DCode lookups, DEX.disassemble); on random/mutated/crafted buffers every yielded instruction must lie inside the code and round-trip, only InvalidInstruction may be raised, and the sweep must finish within a calibrated step budget; every shipped method is compared with an independent sweep.",
             "trusts vf/model/dalvik.py, vf/model/dexr.py; budget = 100x linear envelope measured on valid code"),
-    "C04": ("reference-model monitor: generated static values / annotations with every legal value_arg width at sign boundaries -> EncodedValue API and decompiled initialiser text; big-index pool (indices >= 0x80 / 0x8000), a member-less annotated class, String/Class initialisers of DvClass.get_source",
+    "C04": ("reference-model monitor: generated static values / annotations with every legal value_arg width at sign boundaries -> EncodedValue API and decompiled initialiser text; big-index pool (indices >= 0x80 / 0x8000), a member-less annotated class, String/Class initialisers of DvClass.get_source; initialised static fields with any combination of visibility / final / volatile / transient / synthetic / enum flags",
             "Every integral type x boundary value x every legal width, chars, booleans, null, string/type/field/method/enum references, nested arrays and annotations.",
             "float/double not in the statement; printed initialiser compared for integral/char/boolean fields"),
     "C08": ("reference-model monitor: determineException / get_tries on generated code items and all shipped methods vs the try table decoded by an independent reader; second Analysis over the same DEX object; contiguous tries sharing one handler list; non-minimal LEB128; handler entries must be exactly [type, addr]; handler lists of 62..130 clauses; DEX files of 150 methods written at 32/64 different 4-byte shifts (I/O buffer windows)",
             "Generated code items with 0-4 try items (typed, catch-all, shared handler lists, odd instruction counts => padding) and all shipped methods with tries.",
             "compared as a multiset of ranges (determineException groups by handler offset)"),
-    "C10": ("invariant monitor over real MethodAnalysis basic blocks (contiguity, coverage, instruction slices, required leaders, terminators only last) on generated CFGs and all shipped methods; payloads in front of their instruction, branches leaving the method, contiguous tries, second Analysis over the same DEX object",
+    "C10": ("invariant monitor over real MethodAnalysis basic blocks (contiguity, coverage, instruction slices, required leaders, terminators only last) on generated CFGs and all shipped methods; payloads in front of their instruction, branches leaving the method, contiguous tries, second Analysis over the same DEX object; methods analysed again after their body was replaced through set_instructions()",
             "Oracle from an independent CFG builder over the raw code units; extra splits allowed.",
             "payload area after the code is don't-care for leaders"),
-    "C11": ("reference-model monitor: successors/predecessors of every real basic block vs the targets computed from the raw code units (sets), generated CFGs + all shipped methods; payloads in front of their instruction, goto/if/switch-case targets outside the method, an if as last instruction, second Analysis over the same DEX object",
+    "C11": ("reference-model monitor: successors/predecessors of every real basic block vs the targets computed from the raw code units (sets), generated CFGs + all shipped methods; payloads in front of their instruction, goto/if/switch-case targets outside the method, an if as last instruction, second Analysis over the same DEX object; methods analysed again after their body was replaced through set_instructions()",
             "Includes branches to offset 0, duplicate switch targets, branches whose both sides coincide, shared payloads.",
             "blocks in the payload area and switches without a well-formed payload are don't-care"),
     "C12": ("reference-model monitor: exception_analysis of every real basic block vs try-range overlap computed from the raw try items, generated CFGs + all shipped methods; handler blocks must be blocks of THIS analysis (second Analysis over the same DEX object), contiguous tries, non-minimal LEB128",
@@ -73,25 +73,25 @@ CHECKS = {
     "C15": ("reference-model monitor: StringAnalysis xrefs and new-instance/const-class lists (class and method side) vs the generator's site table; class names with '-', '$', non-ASCII; self / array-of-self references must not appear; a method named like a string constant renamed before create_xref; big-index pool",
             "const-string and /jumbo with shared values, new-instance/const-class on internal, external, array and primitive-array types.",
             "self-class sites and const-class on [LFoo; are don't-care"),
-    "C16": ("metamorphic monitor: canonical analysis dump of every split (set partitions into 2-4 DEX files) x add order vs the single-DEX dump",
+    "C16": ("metamorphic monitor: canonical analysis dump of every split (set partitions into 2-4 DEX files) x add order vs the single-DEX dump; the pieces of a split analysed on their own (each in an Analysis of its own) before they are analysed together",
             "Every difference must be explained item by item, otherwise VIOLATION.",
             "FieldAnalysis objects of one field are merged in the dump (C14's finding)"),
-    "C17": ("history monitor: after every step of a random set_name/reload/query history all item names and const-string operands are compared with a dictionary model; python export switched on in 30% of the histories; lazy binding by index",
+    "C17": ("history monitor: after every step of a random set_name/reload/query history all item names and const-string operands are compared with a dictionary model; python export switched on in 30% of the histories; lazy binding by index; renames to the empty string; bystander DEX objects of the same bytes parsed before and after the renames keep their names",
             "Histories up to 30 steps biased toward items sharing a name string.",
             "three known findings (string-index hook) keyed by mechanism; any divergence without name-string sharing is a VIOLATION"),
-    "C35": ("sys.monitoring step budget around the real parsers (DEX, AXMLPrinter, ARSCParser, APK) on mutated/crafted/truncated inputs; mechanism = innermost running function when the budget ran out; lazily parsed APK Signing Block with one length field changed / bytes after the EOCD record; generated APK seeds for SDK levels 1..40; native-stall probe: 60 name-shaped documents parsed in processes of their own under a confirmed wall-clock limit (loops inside C code are invisible to the step counter)",
+    "C35": ("sys.monitoring step budget around the real parsers (DEX, AXMLPrinter, ARSCParser, APK) on mutated/crafted/truncated inputs; mechanism = innermost running function when the budget ran out; lazily parsed APK Signing Block with one length field changed / bytes after the EOCD record; generated APK seeds for SDK levels 1..40; native-stall probe: 60 name-shaped documents parsed in processes of their own under a confirmed wall-clock limit (loops inside C code are invisible to the step counter); signing blocks whose pair lengths (around 2**63 / 2**64) make the pair walk continue on the same or an earlier pair, budget taken from the same file with its original length",
             "Thousands of hostile inputs per parser per run derived from generated DEX files and every small shipped DEX/AXML/ARSC/APK; budget = 100x the step envelope calibrated on the valid seeds in the same run.",
             "C-level loops are invisible to the counter (watchdog => inconclusive); mild super-linearity can pass"),
     "C40": ("invariant monitor: block boundaries / special_ins keys are instruction offsets; get_special_ins(idx) IS the object at the encoded payload offset and the switch successors come from that same payload (aligned, misaligned, shared payloads); payloads in front of their instruction; encoded offsets at which no instruction starts must not be linked; methods whose start address was moved (set_code_idx) checked against get_instructions_idx of the same method",
             "Generated methods incl. misaligned payloads and shared payloads + all shipped methods.",
             "an encoded offset that is not an instruction start or not a payload of the right kind is invalid code: don't care"),
-    "C01": ("reference-model monitor: real dex.get_instruction vs bit-sliced Dalvik decoder; first code unit exhaustive (65536 values), boundary/random remaining units, in-pool index resolution; the three payload pseudo-instructions (signed keys/targets, widths, data, header-derived length of truncated buffers)",
+    "C01": ("reference-model monitor: real dex.get_instruction vs bit-sliced Dalvik decoder; first code unit exhaustive (65536 values), boundary/random remaining units, in-pool index resolution; the three payload pseudo-instructions (signed keys/targets, widths, data, header-derived length of truncated buffers); successive DEX files with other names at the same pool indices, each released and collected before the next is parsed (a class manager at the address of a dead one)",
             "Every opcode x every high byte with boundary and random operand units is decoded by the real code and compared (length, get_raw round trip, mnemonic, registers, sign-extended literals, high16 shifts, branch offsets, unsigned pool indices, resolved pool items); unused opcodes and truncated buffers must raise InvalidInstruction.",
             "trusts vf/model/dalvik.py (table transcribed from the bytecode spec; all 233 mnemonics agree with androguard's names, disagreement would be reported)"),
-    "C05": ("reference-model monitor: generated class models -> independent DEX writer -> DEX(); canonical dump and all name/descriptor lookups (incl. near-miss and concatenation-collision keys) compared with the model; regexp name lookups with unanchored names, prefixes and wildcard patterns (oracle re.match)",
+    "C05": ("reference-model monitor: generated class models -> independent DEX writer -> DEX(); canonical dump and all name/descriptor lookups (incl. near-miss and concatenation-collision keys) compared with the model; regexp name lookups with unanchored names, prefixes and wildcard patterns (oracle re.match); files with more than 32768 type ids (type_list entries beyond 0x7FFF)",
             "Hundreds (quick) / thousands (thorough) of random class models with adversarial identifiers, shared member names, index-diff encoded member lists, code-less methods, DEX 035-039.",
             "trusts vf/model/dexw.py (self-checked output); descriptors compared with spaces removed"),
-    "C06": ("reference-model monitor: strings over the full code-point range encoded with an own MUTF-8 encoder, compared as UTF-16 code units via get_strings / get_string(i) / member names / const-string operands; the returned list is modified by the caller and the pool asked again; identifiers of 126..1000 bytes",
+    "C06": ("reference-model monitor: strings over the full code-point range encoded with an own MUTF-8 encoder, compared as UTF-16 code units via get_strings / get_string(i) / member names / const-string operands; the returned list is modified by the caller and the pool asked again; identifiers of 126..1000 bytes; shards in which items of an unrelated DEX object were renamed before",
             "Random pools incl. U+0000, lone and reversed surrogates, non-BMP, byte lengths around the reader's 128-byte chunk size.",
             "MUTF-8 decoding is delegated by androguard to the third-party mutf8 extension"),
     "C07": ("metamorphic monitor: all permutations of 6- and 7-entry map lists (5760 files) + random permutations of random models; dump must equal the unpermuted file's; MapItem.parse order logged",
@@ -100,7 +100,7 @@ CHECKS = {
     "C09": ("fault enumeration with a parse-counter monitor: every offset >= 12 of 5 small generated DEX files x byte values; wrong magic/endian/header-size with re-fixed checksum; MapList/MapItem.parse counters must stay 0 on rejection; the sweep repeated on the tolerated magic spellings (dey, other version digits); structured wrong endian tags (byte permutations, windows over two tags, single-bit changes)",
             "Every single-byte position of the chosen files is changed (3 values quick, all 255 thorough) and DEX() must raise before any map item is parsed.",
             "version digits of the magic and the ODEX magic are tolerated by design"),
-    "C23": ("reference-model monitor: writer.string() on all 65536 BMP code points + random full-range strings, literal decoded by an own JLS 3.3/3.10.7 lexer; thorough adds real javac + JVM printing the code units; const-strings (incl. true/false/null/numbers) through the whole decompiler",
+    "C23": ("reference-model monitor: writer.string() on all 65536 BMP code points + random full-range strings, literal decoded by an own JLS 3.3/3.10.7 lexer; thorough adds real javac + JVM printing the code units; const-strings (incl. true/false/null/numbers) through the whole decompiler; second pass over the ASCII specials and a sample after the process has escaped all 1 114 112 code points",
             "Exhaustive over the BMP as one-char strings; random strings with controls, quotes, backslash-u sequences, lone surrogates, supplementary characters.",
             "own JLS lexer (cross-checked against javac in thorough); strings with a lone high surrogate directly followed by a backslash are excluded from the javac oracle (JDK 17 lexer quirk), JLS oracle still decides them"),
     "C03": ("reference-model monitor on direct calls (Leb128.java semantics), exhaustive 1-2 byte sequences + boundary product + random; the bytearray a writer returned is modified in place and the value encoded again (aliasing)",
@@ -112,13 +112,13 @@ CHECKS = {
     "C19": ("invariant monitor on the real Graph.compute_rpo numbering over the same graph families as C18; edit histories with catch edges and node removal between numberings, second numbering of the same graph; postcondition monitor on Graph.compute_rpo inside the real decompilation of ~3200 shipped/generated/hand-assembled methods",
             "Numbering checked for entry==1, permutation of 1..n, every non-retreating edge goes to a higher number (retreating edges must lie on a cycle), every non-entry node has an earlier predecessor.",
             "domain: rooted graphs (all nodes reachable from the entry), as construct() produces"),
-    "C24": ("reference-model monitor on direct calls of decompiler.util.get_type / dex.get_type; sized form interleaved with the plain one; DvClass.get_source end to end: class/super/interface/field/parameter/return types, types named in method bodies (cast, instanceof, class constant, new-array, new-instance, static owner), prototypes of methods with code; dex.get_params_info",
+    "C24": ("reference-model monitor on direct calls of decompiler.util.get_type / dex.get_type; sized form interleaved with the plain one; DvClass.get_source end to end: class/super/interface/field/parameter/return types, types named in method bodies (cast, instanceof, class constant, new-array, new-instance, static owner), prototypes of methods with code; dex.get_params_info; fields sharing one name with different descriptors, in get_source() and in the get_source_ext() token form",
             "Exhaustive primitives, all 1-3 segment names over a look-alike alphabet, random descriptors incl. arrays to depth 255; accepted spellings are the dotted FQ name or the short name for direct java.lang members.",
             "trusts the 15-line renderer in vf/checks/c24.py"),
     "C27": ("reference-model monitor (TypedValue.complexToFloat / Res_value meanings) on format_value, ARSCResStringPoolRef.format_value, get_resource_dimen/color",
             "Grid over type x radix x unit x mantissa boundaries x sign plus random 32-bit data, printed numbers compared numerically with Android's interpretation.",
             "numeric tolerance rel 1e-5/abs 1e-6; undefined unit codes not generated"),
-    "C30": ("reference-model monitor: AOSP packLanguageOrRegion vs real ARSCResTableConfig parse + get_language_and_region + locale= constructor; histories of set/read steps on one object incl. refused (raising) set calls",
+    "C30": ("reference-model monitor: AOSP packLanguageOrRegion vs real ARSCResTableConfig parse + get_language_and_region + locale= constructor; histories of set/read steps on one object incl. refused (raising) set calls; the same calls from four threads at once on objects of their own (switch interval 1 us, overlap counted)",
             "All 2-letter languages x all [A-Z0-9]^2 regions (sampled per language in quick), all 26^3 packed languages, all 3-digit regions, both directions.",
             "trusts the AOSP packing re-implemented in vf/checks/c30.py"),
     "C38": ("postcondition contract on the real clean_file_name + audit hook (sys.addaudithook) that it creates nothing, in sandbox dirs with colliding files; absolute, relative and root-level (/name) call styles",
